@@ -168,8 +168,8 @@ func RunHistory(sc *Scenario, cfg drv.Config, prelude, hist []model.Op) (*drv.Wo
 	return x, nil
 }
 
-func (e *explorer) record(hist []model.Op, v *drv.Violation) {
-	f := &Found{Scenario: e.sc.Name, Cfg: e.cfg, Prelude: e.pi, Hist: append(append([]model.Op{}, e.prelude...), hist...), V: *v}
+func (e *explorer) record(cfg drv.Config, hist []model.Op, v *drv.Violation) {
+	f := &Found{Scenario: e.sc.Name, Cfg: cfg, Prelude: e.pi, Hist: append(append([]model.Op{}, e.prelude...), hist...), V: *v}
 	all := f.Hist
 	if v.Step >= 1 && v.Step <= len(all) {
 		f.OpKind = all[v.Step-1].K.String()
@@ -195,11 +195,15 @@ func (e *explorer) record(hist []model.Op, v *drv.Violation) {
 }
 
 // node runs one history, records, and returns the enabled successors (nil on violation).
-func (e *explorer) node(worker int, hist []model.Op, st map[uint64]struct{}, nt map[uint64]struct{}) []model.Op {
+func (e *explorer) node(worker int, hist []model.Op, pad int, st map[uint64]struct{}, nt map[uint64]struct{}) ([]model.Op, int) {
 	h := append([]model.Op(nil), hist...)
 	e.current[worker].Store(&h)
 	e.started[worker].Store(time.Now().UnixNano())
-	x, v := RunHistory(e.sc, e.cfg, e.prelude, hist)
+	cfg := e.cfg
+	if cfg.AutoPad != 0 {
+		cfg.Pad = pad
+	}
+	x, v := RunHistory(e.sc, cfg, e.prelude, hist)
 	e.started[worker].Store(0)
 	e.hist.Add(1)
 	e.trans.Add(int64(x.Stat.Ops))
@@ -207,8 +211,12 @@ func (e *explorer) node(worker int, hist []model.Op, st map[uint64]struct{}, nt 
 	e.cbs.Add(int64(x.Stat.Callbacks))
 	e.panics.Add(int64(x.Stat.Panics))
 	if v != nil {
-		e.record(hist, v)
-		return nil
+		e.record(cfg, hist, v)
+		return nil, 0
+	}
+	nextPad := 0
+	if cfg.AutoPad != 0 {
+		nextPad = x.NextPad(cfg.AutoPad)
 	}
 	hk := hash64(x.M.Hash())
 	st[hk] = struct{}{}
@@ -222,12 +230,12 @@ func (e *explorer) node(worker int, hist []model.Op, st map[uint64]struct{}, nt 
 		nt[hk] = struct{}{}
 	}
 	if len(hist) >= e.sc.Depth {
-		return nil
+		return nil, 0
 	}
-	return e.sc.Alphabet(x.M)
+	return e.sc.Alphabet(x.M), nextPad
 }
 
-func (e *explorer) dfs(worker int, hist []model.Op, st, nt map[uint64]struct{}) {
+func (e *explorer) dfs(worker int, hist []model.Op, pad int, st, nt map[uint64]struct{}) {
 	if e.timedOut.Load() {
 		return
 	}
@@ -235,9 +243,9 @@ func (e *explorer) dfs(worker int, hist []model.Op, st, nt map[uint64]struct{}) 
 		e.timedOut.Store(true)
 		return
 	}
-	succ := e.node(worker, hist, st, nt)
+	succ, nextPad := e.node(worker, hist, pad, st, nt)
 	for _, op := range succ {
-		e.dfs(worker, append(hist, op), st, nt)
+		e.dfs(worker, append(hist, op), nextPad, st, nt)
 	}
 }
 
@@ -265,12 +273,14 @@ func Explore(sc *Scenario, opt Options) *Report {
 			// expand two levels sequentially to produce tasks
 			st0, nt0 := map[uint64]struct{}{}, map[uint64]struct{}{}
 			var tasks [][]model.Op
-			root := e.node(opt.Workers, nil, st0, nt0)
+			var taskPad []int
+			root, pad0 := e.node(opt.Workers, nil, 0, st0, nt0)
 			for _, op1 := range root {
 				h1 := []model.Op{op1}
-				s1 := e.node(opt.Workers, h1, st0, nt0)
+				s1, pad1 := e.node(opt.Workers, h1, pad0, st0, nt0)
 				for _, op2 := range s1 {
 					tasks = append(tasks, []model.Op{op1, op2})
+					taskPad = append(taskPad, pad1)
 				}
 			}
 			var wg sync.WaitGroup
@@ -291,7 +301,7 @@ func Explore(sc *Scenario, opt Options) *Report {
 						}
 						hist := make([]model.Op, 2, sc.Depth+2)
 						copy(hist, tasks[k])
-						e.dfs(w, hist, sts[w], nts[w])
+						e.dfs(w, hist, taskPad[k], sts[w], nts[w])
 					}
 				}(w)
 			}
